@@ -217,7 +217,8 @@ def main(tier):
         ob("FI|%s" % surf, "bin", surf, FLT, INT, ["(Ok %s)" % NV("(op %s f64 (a) (fb))" % fop)], R_FLT)
         ob("FF|%s" % surf, "bin", surf, FLT, FLT, ["(Ok %s)" % NV("(op %s f64 (a) (b))" % fop)], R_FLT)
     FDIV = NV("(op div f64 (fa) (fb))")
-    ob("II|/", "bin", "/", INT, INT, ["(match (call (| i64::checked_rem_euclid i64::checked_rem) (a) (b)) ((pvar Option::Some (bind ?r)) (if (op eq i64 (var ?r) (lit 0 i64)) (Ok (I (op div i64 (a) (b)))) (Ok %s))) ((pvar Option::None) (Ok %s)))" % (FDIV, FDIV)],
+    ob("II|/", "bin", "/", INT, INT, ["(match (call (| i64::checked_rem_euclid i64::checked_rem) (a) (b)) ((pvar Option::Some (bind ?r)) (if (op eq i64 (var ?r) (lit 0 i64)) (Ok (I (op div i64 (a) (b)))) (Ok %s))) ((pvar Option::None) (Ok %s)))" % (FDIV, FDIV),
+                                      "(match (call (| i64::checked_rem_euclid i64::checked_rem) (a) (b)) ((pvar Option::Some (pconst 0 i64)) (Ok (I (op div i64 (a) (b))))) ((| (por (pvar Option::Some _) (pvar Option::None)) _) (Ok %s)))" % FDIV],
        "C09 Integer / Integer: Integer(quotient) iff the division is exact and fits, otherwise the Float quotient")
     FREM = NV("(op rem f64 (fa) (fb))")
     ob("II|%", "bin", "%", INT, INT, ["(if (op eq i64 (b) (lit 0 i64)) (Ok %s) (Ok (I (call i64::wrapping_rem (a) (b)))))" % FREM,
